@@ -154,23 +154,24 @@ RefEqGen(r) ==
         LET x == r.refs[k]
         IN \A d \in Ran(x.deps) : d \in 1..NT(r) /\ \E g \in Obs(r, d) : \E j \in DOMAIN x.incs : RefMatch(r, x.how, g, x.incs[j])
 
+(* the clauses in the order that names a rejection (first failed clause) and numbers the bits of the mask *)
 Clauses(r) ==
-    << <<"tree.type_once", TypeOnce(r)>>, <<"tree.ancestors", Ancestors(r)>>, <<"tree.links", Links(r)>>,
-       <<"tree.path_total", PathTotal(r)>>, <<"tree.path_shape", PathShape(r)>>, <<"tree.injective", Injective(r)>>,
-       <<"tree.inside_outdir", InsideOutdir(r)>>, <<"tree.one_file", OneFile(r)>>, <<"tree.ref_eq_gen", RefEqGen(r)>> >>
+    << <<"tree.inside_outdir", InsideOutdir(r)>>, <<"tree.type_once", TypeOnce(r)>>, <<"tree.ancestors", Ancestors(r)>>,
+       <<"tree.links", Links(r)>>, <<"tree.path_total", PathTotal(r)>>, <<"tree.path_shape", PathShape(r)>>,
+       <<"tree.injective", Injective(r)>>, <<"tree.one_file", OneFile(r)>>, <<"tree.ref_eq_gen", RefEqGen(r)>> >>
 
-RECURSIVE JoinFailed(_, _)
-JoinFailed(cs, k) ==
-    IF k > Len(cs) THEN ""
-    ELSE LET rest == JoinFailed(cs, k + 1)
-         IN IF cs[k][2] THEN rest ELSE IF rest = "" THEN cs[k][1] ELSE cs[k][1] \o "+" \o rest
+RECURSIVE FailMask(_, _)
+FailMask(cs, k) == IF k > Len(cs) THEN 0 ELSE (IF cs[k][2] THEN 0 ELSE 2 ^ (k - 1)) + FailMask(cs, k + 1)
+RECURSIVE FirstFailed(_, _)
+FirstFailed(cs, k) == IF k > Len(cs) THEN "ok" ELSE IF cs[k][2] THEN FirstFailed(cs, k + 1) ELSE cs[k][1]
 
-(* THE verdict: "ok", or the names of all failed clauses joined by "+".  For folded inputs the property only      *)
-(* keeps the clause that nothing leaves the output directory.                                                     *)
+(* THE verdict: <<"ok", 0>>, or <<name of the first failed clause, bit mask of all failed clauses>> (kept short:   *)
+(* TLC wraps long printed tuples).  For folded inputs the property only keeps the clause that nothing leaves the  *)
+(* output directory.                                                                                               *)
 Verdict(r) ==
-    IF ~HarnessOK(r) THEN "harness.projection"
-    ELSE IF Folded(r) THEN (IF InsideOutdir(r) THEN "ok" ELSE "tree.inside_outdir")
-    ELSE LET f == JoinFailed(Clauses(r), 1) IN IF f = "" THEN "ok" ELSE f
+    IF ~HarnessOK(r) THEN <<"harness.projection", 0>>
+    ELSE IF Folded(r) THEN (IF InsideOutdir(r) THEN <<"ok", 0>> ELSE <<"tree.inside_outdir", 1>>)
+    ELSE LET cs == Clauses(r) IN <<FirstFailed(cs, 1), FailMask(cs, 1)>>
 
 (* ======================================= PART 2: I-layer =============================================== *)
 CONSTANTS Roots,        \* candidate root namespace names
@@ -366,11 +367,11 @@ Proj ==
         refs |-> <<>>]
 
 (* ---- I => P ---- *)
-Refines == pc = "done" => Verdict(Proj) = "ok"
+Refines == pc = "done" => Verdict(Proj) = <<"ok", 0>>
 
 (* negative control: WITHOUT the exception for folded names the property is refutable on the model (two sibling   *)
 (* namespaces with one stropped image: the second is silently dropped from the set of nested namespaces)          *)
-RefinesNoFold == pc = "done" => JoinFailed(Clauses(Proj), 1) = ""
+RefinesNoFold == pc = "done" => FailMask(Clauses(Proj), 1) = 0
 
 (* independent sanity theorems on intermediate states *)
 IndexClosed ==      \* the `break` in the ancestor walk is sound: the index is always prefix-closed above the walk position
